@@ -20,7 +20,7 @@ pub open spec fn w_tree(ss: Seq<LuaScope>) -> bool {
     &&& forall|i: int| 0 <= i < 5 ==> (#[trigger] ss[i]).id.id as int == i
     &&& ss[0].parent is None && par(ss, 1) == 0 && par(ss, 2) == 1 && par(ss, 3) == 1 && par(ss, 4) == 3
     &&& kd(ss, 0) == LuaScopeKind::Normal && kd(ss, 1) == LuaScopeKind::Normal && kd(ss, 2) == LuaScopeKind::LocalOrAssignStat
-    &&& kd(ss, 3) == LuaScopeKind::Normal && kd(ss, 4) == LuaScopeKind::Normal
+    &&& kd(ss, 3) == W_FOR_KIND && kd(ss, 4) == LuaScopeKind::Normal
     &&& st(ss, 0) == 0 && en(ss, 0) == 36 && st(ss, 1) == 0 && en(ss, 1) == 36 && st(ss, 2) == 0 && en(ss, 2) == 12
     &&& st(ss, 3) == 13 && en(ss, 3) == 36 && st(ss, 4) == 29 && en(ss, 4) == 33
     &&& kids(ss, 0).len() == 1 && kids(ss, 0)[0] is Scope && sidx(kids(ss, 0)[0]) == 1
@@ -107,7 +107,7 @@ pub fn witness_numeric_for_header(d6: LuaDecl, d17: LuaDecl)
     scopes.push(w_scope(None, c0, 0, 36, LuaScopeKind::Normal, 0));
     scopes.push(w_scope(Some(w_sid(0)), c1, 0, 36, LuaScopeKind::Normal, 1));
     scopes.push(w_scope(Some(w_sid(1)), c2, 0, 12, LuaScopeKind::LocalOrAssignStat, 2));
-    scopes.push(w_scope(Some(w_sid(1)), c3, 13, 36, LuaScopeKind::Normal, 3));
+    scopes.push(w_scope(Some(w_sid(1)), c3, 13, 36, W_FOR_KIND, 3));
     scopes.push(w_scope(Some(w_sid(3)), c4, 29, 33, LuaScopeKind::Normal, 4));
     let mut decls: HashMap<LuaDeclId, LuaDecl> = HashMap::new();
     decls.insert(id6, d6);
@@ -125,8 +125,10 @@ pub fn witness_numeric_for_header(d6: LuaDecl, d17: LuaDecl)
         // the loop variable is visible at 24 in the code's reading, not in Lua's; `local n` is visible in both
         assert(is_decl_child(ss, 3, 0, id17));
         assert(is_decl_child(ss, 2, 0, id6));
-        assert(region(ss, 3, id17, 24, false));
-        assert(visible(ss, id17, 24, false));
+        if !hdr_trav() && !enc_for() {
+            assert(region(ss, 3, id17, 24, false));
+            assert(visible(ss, id17, 24, false));
+        }
         assert(ext_inside(ss, 1, 24));
         assert(region(ss, 2, id6, 24, true));
         assert(visible(ss, id6, 24, true));
@@ -141,9 +143,16 @@ pub fn witness_numeric_for_header(d6: LuaDecl, d17: LuaDecl)
             assert forall|s: int, k1: int, k2: int, e1: LuaDeclId, e2: LuaDeclId| 0 <= s < ss.len() && kd(ss, s) == LuaScopeKind::LocalOrAssignStat
                 && #[trigger] is_decl_child(ss, s, k1, e1) && #[trigger] is_decl_child(ss, s, k2, e2) && e1 != e2 implies false by {}
         }
-        // contract of the real function: Some (a declaration named n is reachable), and the one with the largest position among the reachable
-        assert(r is Some);
-        assert(r == Some(&tree.decls@[id17]));     // FINDING: Lua selects id6
+        if !hdr_trav() && !enc_for() {
+            // today's code. Contract of the real function: Some (a declaration named n is reachable), the one with the largest position
+            assert(r is Some);
+            assert(r == Some(&tree.decls@[id17]));     // FINDING: Lua selects id6
+        }
+        if hdr_trav() && enc_for() {
+            // repaired code (the builder gives the numeric for the kind ForRange): the outer local, as in Lua
+            assert(r is Some);
+            assert(r == Some(&tree.decls@[id6]));
+        }
     }
 }
 
@@ -255,38 +264,44 @@ pub fn witness_duplicate_names(d6: LuaDecl, d9: LuaDecl)
         assert(ext_inside(ss, 1, 24));
         assert(region(ss, 2, id6, 24, true) && region(ss, 2, id9, 24, true));
         assert(visible(ss, id6, 24, true) && visible(ss, id9, 24, true));
-        // the trace of the real traversal from the innermost scope around 24 (the block, scope 1)
-        let l = choose|l: int| is_leaf(ss, l, 24) && r == run::<FindVisitor>((&tree, "a"@, None::<&LuaDecl>), m_visit(ss, l, 24, true)).0.2;
-        assert(l == 1) by {
-            if l == 0 { assert(kids(ss, 0)[0] matches ScopeOrDeclId::Scope(sid) ==> !rng(ss, sid.id as int, 24)); }
+        if !dup_fixed() {
+            // the trace of the real traversal from the innermost scope around 24 (the block, scope 1)
+            let l = choose|l: int| is_leaf(ss, l, 24) && r == run::<FindVisitor>((&tree, "a"@, None::<&LuaDecl>), m_visit(ss, l, 24, true)).0.2;
+            assert(l == 1) by {
+                if l == 0 { assert(kids(ss, 0)[0] matches ScopeOrDeclId::Scope(sid) ==> !rng(ss, sid.id as int, 24)); }
+            }
+            let ks1 = kids(ss, 1);
+            let ks2 = kids(ss, 2);
+            assert(ks2[0] == x6 && ks2[1] == x9);
+            assert(decls_from(ks2, 2) =~= Seq::<ScopeOrDeclId>::empty());
+            assert(decls_from(ks2, 1) =~= seq![x9]);
+            assert(decls_from(ks2, 0) =~= seq![x6, x9]);
+            assert(before(ss, ks1[0], 24));
+            assert(m_cut(ss, ks1, 24, 1) == 0);
+            assert(m_walk(ss, ks1, -1) =~= Seq::<ScopeOrDeclId>::empty());
+            assert(m_child(ss, ks1[0]) == m_expose(ss, 2));
+            assert(m_walk(ss, ks1, 0) =~= seq![x6, x9]);
+            assert(m_search(ss, 1, 24) =~= seq![x6, x9]);
+            lemma_visit_unfold(ss, 1, 24, true);
+            lemma_visit_unfold(ss, 0, 24, false);
+            assert(m_search(ss, 0, 24) =~= Seq::<ScopeOrDeclId>::empty()) by {
+                let ks0 = kids(ss, 0);
+                assert(before(ss, ks0[0], 24));
+                assert(m_cut(ss, ks0, 24, 1) == 0);
+                assert(m_walk(ss, ks0, -1) =~= Seq::<ScopeOrDeclId>::empty());
+                assert(m_child(ss, ks0[0]) =~= Seq::<ScopeOrDeclId>::empty());
+                assert(m_walk(ss, ks0, 0) =~= Seq::<ScopeOrDeclId>::empty());
+            }
+            assert(m_up(ss, 0, 24) =~= Seq::<ScopeOrDeclId>::empty());
+            let t = m_visit(ss, 1, 24, true);
+            assert(t =~= seq![x6, x9]);
+            assert(find_hit(&tree, "a"@, t[0]));
+            assert(r == Some(&tree.decls@[id6]));      // FINDING: Lua selects id9
+        } else {
+            // repaired code: the later name, as in Lua
+            assert(r is Some);
+            assert(r == Some(&tree.decls@[id9]));
         }
-        let ks1 = kids(ss, 1);
-        let ks2 = kids(ss, 2);
-        assert(ks2[0] == x6 && ks2[1] == x9);
-        assert(decls_from(ks2, 2) =~= Seq::<ScopeOrDeclId>::empty());
-        assert(decls_from(ks2, 1) =~= seq![x9]);
-        assert(decls_from(ks2, 0) =~= seq![x6, x9]);
-        assert(before(ss, ks1[0], 24));
-        assert(m_cut(ss, ks1, 24, 1) == 0);
-        assert(m_walk(ss, ks1, -1) =~= Seq::<ScopeOrDeclId>::empty());
-        assert(m_child(ss, ks1[0]) == m_expose(ss, 2));
-        assert(m_walk(ss, ks1, 0) =~= seq![x6, x9]);
-        assert(m_search(ss, 1, 24) =~= seq![x6, x9]);
-        lemma_visit_unfold(ss, 1, 24, true);
-        lemma_visit_unfold(ss, 0, 24, false);
-        assert(m_search(ss, 0, 24) =~= Seq::<ScopeOrDeclId>::empty()) by {
-            let ks0 = kids(ss, 0);
-            assert(before(ss, ks0[0], 24));
-            assert(m_cut(ss, ks0, 24, 1) == 0);
-            assert(m_walk(ss, ks0, -1) =~= Seq::<ScopeOrDeclId>::empty());
-            assert(m_child(ss, ks0[0]) =~= Seq::<ScopeOrDeclId>::empty());
-            assert(m_walk(ss, ks0, 0) =~= Seq::<ScopeOrDeclId>::empty());
-        }
-        assert(m_up(ss, 0, 24) =~= Seq::<ScopeOrDeclId>::empty());
-        let t = m_visit(ss, 1, 24, true);
-        assert(t =~= seq![x6, x9]);
-        assert(find_hit(&tree, "a"@, t[0]));
-        assert(r == Some(&tree.decls@[id6]));      // FINDING: Lua selects id9
     }
 }
 
@@ -416,8 +431,10 @@ pub fn witness_generic_for_header_closure(d6: LuaDecl, d16: LuaDecl, d19: LuaDec
         assert(is_decl_child(ss, 3, 0, id16));
         assert(is_decl_child(ss, 2, 0, id6));
         assert(in_some_child(ss, 3, 44)) by { assert(kids(ss, 3)[2] matches ScopeOrDeclId::Scope(sid) && rng(ss, sid.id as int, 44)); }
-        assert(region(ss, 3, id16, 44, false));
-        assert(visible(ss, id16, 44, false));
+        if !hdr_trav() {
+            assert(region(ss, 3, id16, 44, false));
+            assert(visible(ss, id16, 44, false));
+        }
         assert(ext_inside(ss, 1, 44));
         assert(region(ss, 2, id6, 44, true));
         assert(visible(ss, id6, 44, true));
@@ -433,7 +450,14 @@ pub fn witness_generic_for_header_closure(d6: LuaDecl, d16: LuaDecl, d19: LuaDec
             assert forall|s: int, k1: int, k2: int, e1: LuaDeclId, e2: LuaDeclId| 0 <= s < ss.len() && kd(ss, s) == LuaScopeKind::LocalOrAssignStat
                 && #[trigger] is_decl_child(ss, s, k1, e1) && #[trigger] is_decl_child(ss, s, k2, e2) && e1 != e2 implies false by {}
         }
-        assert(r is Some);
-        assert(r == Some(&tree.decls@[id16]));     // FINDING: Lua selects id6
+        if !hdr_trav() {
+            assert(r is Some);
+            assert(r == Some(&tree.decls@[id16]));     // FINDING: Lua selects id6
+        }
+        if hdr_trav() && enc_for() {
+            // repaired code: the outer local, as in Lua
+            assert(r is Some);
+            assert(r == Some(&tree.decls@[id6]));
+        }
     }
 }
